@@ -14,7 +14,16 @@ KNOWN_TEXT = {
     "children-stale-after-remove": "removeDiskNode leaves the removed snapshot's diskChildrenMap entry: a snapshot created later with the "
                                    "same name is listed with a stale second child (and cannot be removed) until the replica is reopened",
     "revert-target": "Revert to a name that is not a non-head chain member (the head itself / an off-chain file) destroys the directory",
+    "createdisk-memory-on-failure": "createDisk changes diskData / activeDiskData / volume.files before volume.meta is committed and does not "
+                                    "undo it when the commit fails: after a failed Snapshot Chain() fails and writes fail ('file already closed')",
+    "resize-size-on-failure": "Resize truncates the images and sets r.info.Size before volume.meta is written: a failed Resize leaves the new size",
+    "checkpoint-set-on-failure": "SetCheckpoint sets r.info.Checkpoint before volume.meta is written: a failed SetCheckpoint leaves the new value "
+                                 "in memory (persisted by the next metadata update)",
 }
+
+
+def info_but(a, b, skip):
+    return a is not None and b is not None and all(a.get(k) == b.get(k) for k in a if k not in skip and k != "dirty")
 
 
 def shape_of(case, outs, failstep):
@@ -40,6 +49,15 @@ def shape_of(case, outs, failstep):
         name = metalib.dname_str(tuple(o["d"]))
         if name not in chain[1:] and name in prev["dir"]:
             return "revert-target"
+    cur = outs["obs"][failstep]
+    if o.get("blk") and cur["res"] == "err" and prev.get("open") and cur.get("open"):
+        # an operation made to fail by an obstacle at volume.meta.tmp; the shapes are stated on the Info() before / after
+        if o["op"] == "snap" and info_but(prev.get("info"), cur.get("info"), ()) and sorted(prev["dir"]) == sorted(cur["dir"]):
+            return "createdisk-memory-on-failure"
+        if o["op"] == "resize" and info_but(prev.get("info"), cur.get("info"), ("size",)) and prev.get("chain") == cur.get("chain"):
+            return "resize-size-on-failure"
+        if o["op"] == "checkpoint" and info_but(prev.get("info"), cur.get("info"), ("checkpoint",)) and prev.get("chain") == cur.get("chain"):
+            return "checkpoint-set-on-failure"
     return None
 
 
@@ -48,8 +66,9 @@ def gen_cases(ctx, n_random):
     cases = metalib.fixed_cases() + metalib.known_cases()
     for i in range(n_random):
         kb = 0.08 if i % 10 == 0 else 0.0
-        cases.append(dict(ops=metalib.Gen(rng, invalid=0.3, known_bad=kb).history(rng.randint(8, 22)),
-                          maxchain=rng.choice([0, 0, 0, 0, 6])))
+        g = metalib.Gen(rng, invalid=0.3, known_bad=kb)
+        g.block_known = (i % 5 == 1)
+        cases.append(dict(ops=g.history(rng.randint(8, 22)), maxchain=rng.choice([0, 0, 0, 0, 6])))
     return cases
 
 
@@ -105,7 +124,7 @@ def main(ctx, replay=None):
         if sh in seen:
             continue
         seen.add(sh)
-        if b["case"] < nfixed:
+        if b["case"] < nfixed or sh.endswith("-on-failure"):
             # one of the hand-minimised histories of metalib.known_cases(): nothing to shrink
             vlib.known_finding(ctx, sh, KNOWN_TEXT[sh])
             continue
@@ -170,7 +189,8 @@ def main(ctx, replay=None):
                  model_impl_differences=len(drift), oracle_failures=len(concrete), known_finding_histories=len(known),
                  input_distribution=kinds,
                  coverage_flags=dict(chain_mutation=sum(1 for f in cov if f & 1), refusal=sum(1 for f in cov if f & 2),
-                                     reopen=sum(1 for f in cov if f & 4), mark_removed=sum(1 for f in cov if f & 8)),
+                                     reopen=sum(1 for f in cov if f & 4), mark_removed=sum(1 for f in cov if f & 8),
+                                     failed_by_obstacle=sum(1 for f in cov if f & 32)),
                  theorems=proof.get("theorems", []), exhaustive=False)
     for k, v in extra["coverage_flags"].items():
         if v == 0:
@@ -182,7 +202,11 @@ def main(ctx, replay=None):
         "'volume.meta' or 'revision.counter' is outside the model's argument space",
         "image content is abstracted to (inode, number of data writes); 'same data' is judged on the implementation's own fingerprints "
         "(raw image files, full volume read) before close and after open",
-        "no file-system failure is injected in these histories (that is C08); ReplaceDisk / UpdateCloneInfo / Reload are not in the alphabet",
+        "the only failures in these histories are opens of volume.meta.tmp / <new head>.meta.tmp made to fail by a directory placed at that "
+        "name (every call of every operation failing once is C08); RemoveDiffDisk / PrepareRemoveDisk / WriteAt are never made to fail here "
+        "(a failing metadata write in removeDiskNode is logrus.Fatalf)",
+        "ReplaceDisk arguments: (snapshot, its child snapshot), unknown source, head as target, a source that is no file, wrong mode; not "
+        "generated: source = head, source = target, a source that is not the target's child; UpdateCloneInfo / Reload are not in the alphabet",
         "the per-disk RevisionCounter is excluded from the reopen round trip (readDiskData rewrites values <= 1 on open)",
     ], samples)
     vlib.finish(ctx)
